@@ -10,6 +10,7 @@ CONSTANTS
   CanRead = {}
   CanPrune = {"x"}
   CanForget = {"x"}
+  CanRewrite = {}
   CanTag = {}
   Budget <- BudgetQ
   Variant = "ok"
@@ -20,6 +21,7 @@ INVARIANTS
   IndexSound
   ReaderOK
   TagNeverLoses
+  RewriteNeverLoses
 PROPERTIES
   W1
   W2
